@@ -1,4 +1,5 @@
 import PyhfModel.Workspace
+import PyhfModel.Prune
 import PyhfDriver.Json
 open Lean
 namespace Pyhf.Driver
@@ -41,5 +42,49 @@ def opWsCombine (j : Json) : R Json := do
 def opWsSorted (j : Json) : R Json := do
   let xs ← (← fldA j "items").mapM parseItemS
   pure (Json.mkObj [("ok", Json.arr ((sortItems xs).map itemJson).toArray)])
+
+def parsePWs (j : Json) : R PWs := do
+  let chans ← (← fldA j "channels").mapM fun c => do
+    let ss ← (← fldA c "samples").mapM fun s => do
+      let ms ← (← fldA s "modifiers").mapM fun m => do
+        pure ({ name := ← fldS m "name", type := ← fldS m "type", body := ← fldS m "body" } : PMod)
+      pure ({ name := ← fldS s "name", data := ← fldS s "data", mods := ms } : PSample)
+    pure ({ name := ← fldS c "name", samples := ss } : PChan)
+  let meas ← (← fldA j "measurements").mapM fun m => do
+    let ps ← (← fldA m "parameters").mapM fun p => do pure ({ name := ← fldS p "name", body := ← fldS p "body" } : PPar)
+    pure ({ name := ← fldS m "name", poi := ← fldS m "poi", pars := ps } : PMeas)
+  let obs ← (← fldA j "observations").mapM fun o => do pure ({ name := ← fldS o "name", body := ← fldS o "body" } : PObs)
+  pure { channels := chans, measurements := meas, observations := obs, version := ← fldS j "version" }
+
+def pwsJson (w : PWs) : Json :=
+  Json.mkObj [
+    ("channels", Json.arr (w.channels.map fun c => Json.mkObj [("name", c.name), ("samples", Json.arr (c.samples.map fun s =>
+        Json.mkObj [("name", s.name), ("data", s.data), ("modifiers", Json.arr (s.mods.map fun m =>
+          Json.mkObj [("name", m.name), ("type", m.type), ("body", m.body)]).toArray)]).toArray)]).toArray),
+    ("measurements", Json.arr (w.measurements.map fun m => Json.mkObj [("name", m.name), ("poi", m.poi),
+        ("parameters", Json.arr (m.pars.map fun p => Json.mkObj [("name", p.name), ("body", p.body)]).toArray)]).toArray),
+    ("observations", Json.arr (w.observations.map fun o => Json.mkObj [("name", o.name), ("body", o.body)]).toArray),
+    ("version", w.version)]
+
+def strList (j : Json) (k : String) : R (List String) := do
+  (← fldA j k).mapM fun x => match x with | .str s => pure s | _ => throw "string expected"
+
+def pairList (j : Json) (k : String) : R (List (String × String)) := do
+  (← fldA j k).mapM fun x => match x with
+    | .arr #[.str a, .str b] => pure (a, b)
+    | _ => throw "pair expected"
+
+/-- `{"op":"ws_prune_rename","ws":…,"req":{…}}` -/
+def opWsPruneRename (j : Json) : R Json := do
+  let w ← parsePWs (← fld j "ws")
+  let q ← fld j "req"
+  let r : PReq := { pruneMods := ← strList q "prune_modifiers", pruneTypes := ← strList q "prune_modifier_types",
+                    pruneSamples := ← strList q "prune_samples", pruneChannels := ← strList q "prune_channels",
+                    pruneMeas := ← strList q "prune_measurements", renMods := ← pairList q "rename_modifiers",
+                    renSamples := ← pairList q "rename_samples", renChannels := ← pairList q "rename_channels",
+                    renMeas := ← pairList q "rename_measurements" }
+  match pruneRename r w with
+  | .error e => pure (Json.mkObj [("ok", Json.mkObj [("error", Json.str e.str)])])
+  | .ok w' => pure (Json.mkObj [("ok", Json.mkObj [("error", Json.null), ("ws", pwsJson w')])])
 
 end Pyhf.Driver
